@@ -322,12 +322,14 @@ package secretstore
 //@        && k != k_ck(bytes(group.PublicKey), pkv(devicePublicKey))
 //@        ==> dsh(s.datastore)[k] == old(dsh(s.datastore))[k] && dsv(s.datastore)[k] == old(dsv(s.datastore))[k])
 
-//@ trusted func (*deviceKeystore).memberDeviceForGroup
-//@   ensures ret1 == nil ==> omdOK(ret0) && fresh(ret0)
-//@   ensures ret1 != nil ==> ret0 == nil
+//@ # (the contract of (*deviceKeystore).memberDeviceForGroup is in the C11 section below)
 
 //@ func (*secretStore).SealEnvelope
 //@   for C09, C10
+//@   requires s != nil ==> dkOK(s.deviceKeystore) && unlocked(addr(s.deviceKeystore.mu)) && addr(s.deviceKeystore.mu) != addr(s.messageMutex)
+//@   modifies ksh(s.deviceKeystore.keystore), ksk(s.deviceKeystore.keystore), lockstate(addr(s.deviceKeystore.mu))
+//@   ensures [C11.ks.inv] s != nil ==> ksOK(s.deviceKeystore.keystore) && unlocked(addr(s.deviceKeystore.mu))
+//@   ensures [C11.ks.monotone] s != nil ==> ksMono(s.deviceKeystore.keystore)
 //@   at (*secretStore).getDeviceChainKeyForGroupAndDevice requires [C09.lock.read-under-lock] locked(addr(s.messageMutex))
 //@   requires s != nil ==> s.datastore != nil && s.logger != nil && unlocked(addr(s.messageMutex))
 //@   requires s != nil && group != nil ==> (forall d Bytes {k_ck(bytes(group.PublicKey), d)} :: dck_ctr(dsv(s.datastore)[k_ck(bytes(group.PublicKey), d)]) < 18446744073709551615)
@@ -561,6 +563,10 @@ package secretstore
 
 //@ func (*secretStore).getOwnDeviceChainKeyForGroup
 //@   for C05, C09
+//@   requires s != nil ==> dkOK(s.deviceKeystore) && unlocked(addr(s.deviceKeystore.mu)) && addr(s.deviceKeystore.mu) != addr(s.messageMutex)
+//@   modifies ksh(s.deviceKeystore.keystore), ksk(s.deviceKeystore.keystore), lockstate(addr(s.deviceKeystore.mu))
+//@   ensures [C11.ks.inv] s != nil ==> ksOK(s.deviceKeystore.keystore) && unlocked(addr(s.deviceKeystore.mu))
+//@   ensures [C11.ks.monotone] s != nil ==> ksMono(s.deviceKeystore.keystore)
 //@   requires s != nil ==> s.datastore != nil && s.logger != nil && unlocked(addr(s.messageMutex)) && s.preComputedKeysCount < 1000000
 //@   requires group != nil
 //@   modifies dsv(s.datastore), dsh(s.datastore), lockstate(addr(s.messageMutex)), lockgen(addr(s.messageMutex))
@@ -569,6 +575,10 @@ package secretstore
 
 //@ func (*secretStore).GetShareableChainKey
 //@   for C05
+//@   requires s != nil ==> dkOK(s.deviceKeystore) && unlocked(addr(s.deviceKeystore.mu)) && addr(s.deviceKeystore.mu) != addr(s.messageMutex)
+//@   modifies ksh(s.deviceKeystore.keystore), ksk(s.deviceKeystore.keystore), lockstate(addr(s.deviceKeystore.mu))
+//@   ensures [C11.ks.inv] s != nil ==> ksOK(s.deviceKeystore.keystore) && unlocked(addr(s.deviceKeystore.mu))
+//@   ensures [C11.ks.monotone] s != nil ==> ksMono(s.deviceKeystore.keystore)
 //@   requires s != nil && s.datastore != nil && s.logger != nil && s.deviceKeystore != nil && unlocked(addr(s.messageMutex)) && s.preComputedKeysCount < 1000000
 //@   requires group != nil && targetMemberPublicKey != nil
 //@   modifies dsv(s.datastore), dsh(s.datastore), lockstate(addr(s.messageMutex)), lockgen(addr(s.messageMutex))
@@ -577,9 +587,243 @@ package secretstore
 
 //@ func (*secretStore).RegisterChainKey
 //@   for C05, C02
+//@   requires s != nil ==> dkOK(s.deviceKeystore) && unlocked(addr(s.deviceKeystore.mu)) && addr(s.deviceKeystore.mu) != addr(s.messageMutex)
+//@   modifies ksh(s.deviceKeystore.keystore), ksk(s.deviceKeystore.keystore), lockstate(addr(s.deviceKeystore.mu))
+//@   ensures [C11.ks.inv] s != nil ==> ksOK(s.deviceKeystore.keystore) && unlocked(addr(s.deviceKeystore.mu))
+//@   ensures [C11.ks.monotone] s != nil ==> ksMono(s.deviceKeystore.keystore)
 //@   requires s != nil ==> s.datastore != nil && s.logger != nil && unlocked(addr(s.messageMutex)) && s.preComputedKeysCount < 1000000
 //@   requires group != nil && senderDevicePublicKey != nil
 //@   at (*secretStore).registerChainKey requires [C05.register.sender] devicePublicKey == senderDevicePublicKey && group == caller_group
 //@   at (*secretStore).registerChainKey assumes deviceChainKey.Counter + s.preComputedKeysCount < 18446744073709551616
 //@   modifies dsv(s.datastore), dsh(s.datastore), lockstate(addr(s.messageMutex)), lockgen(addr(s.messageMutex))
 //@   ensures [C05.register.reject] ret0 == nil ==> s != nil
+
+//@ # ======================= C11: key derivation and the device keystore =======================
+//@ # cgkey(sk, pk): the Ed25519 key both sides derive from their own private key and the other's public key
+//@ spec func cgkey(sk Bytes, pk Bytes) Bytes = edkey(x25519(e2c_priv(sk), e2c_pub(pk)))
+//@ lemma C11.symmetry: forall a Bytes, b Bytes {cgkey(a, pubof(b))} :: cgkey(a, pubof(b)) == cgkey(b, pubof(a))
+//@   for C11
+//@ lemma C11.export-import: forall t Int, r Bytes {skmarshal(t, r)} :: skm_type(skmarshal(t, r)) == t && skm_raw(skmarshal(t, r)) == r
+//@   for C11
+//@ # contact-group key material as a function of the pair key
+//@ spec func cg_stream(pair Bytes) Bytes = hkdf_stream(hkdf_extract(pair, bempty), bempty)
+//@ spec func cg_groupsk(pair Bytes) Bytes = edkey(bslice(cg_stream(pair), 0, 32))
+//@ spec func cg_secret(pair Bytes) Bytes = bslice(cg_stream(pair), 32, 64)
+
+//@ # Keystore invariant: every stored key is an Ed25519 key object; the cached agreement results are what a
+//@ # recomputation from the stored account / account-proof key would give (cache == recompute)
+//@ pred ksOK(ks) = ks != nil
+//@   && (forall n Bytes {ksh(ks)[n]} :: ksh(ks)[n] ==> ksk(ks)[n] != nil && keytype(ksk(ks)[n]) == 1)
+//@   && (forall p Bytes {join2("contactGroupSK", hexs(p))} :: ksh(ks)[join2("contactGroupSK", hexs(p))] ==>
+//@         ksh(ks)["accountSK"] && skv(ksk(ks)[join2("contactGroupSK", hexs(p))]) == cgkey(skv(ksk(ks)["accountSK"]), p))
+//@   && (forall p Bytes {join2("memberSK", hexs(p))} :: ksh(ks)[join2("memberSK", hexs(p))] ==>
+//@         ksh(ks)["accountProofSK"] && skv(ksk(ks)[join2("memberSK", hexs(p))]) == cgkey(skv(ksk(ks)["accountProofSK"]), p))
+//@ # every writer only adds keys: a stored key is never replaced or removed (what makes facts about stored keys stable)
+//@ pred ksMono(ks) = forall n Bytes {ksh(ks)[n]} :: old(ksh(ks))[n] ==> ksh(ks)[n] && ksk(ks)[n] == old(ksk(ks))[n]
+//@ pred dkOK(a) = a != nil && ksOK(a.keystore)
+
+//@ func (*deviceKeystore).getOrGenerateNamedKey
+//@   for C11
+//@   requires dkOK(a)
+//@   requires [C11.named.ns] name == "accountSK" || name == "accountProofSK" || name == "deviceSK" || name == join2("memberDeviceSK", join2_b(name))
+//@   modifies ksh(a.keystore), ksk(a.keystore)
+//@   ensures [C11.named.result] ret1 == nil ==> ret0 != nil && keytype(ret0) == 1 && ksh(a.keystore)[name] && ksk(a.keystore)[name] == ret0
+//@   ensures [C11.named.cached] old(ksh(a.keystore))[name] ==> ksh(a.keystore) == old(ksh(a.keystore)) && ksk(a.keystore) == old(ksk(a.keystore))
+//@   ensures [C11.named.frame] forall n Bytes {ksh(a.keystore)[n]} :: n != name ==> ksh(a.keystore)[n] == old(ksh(a.keystore))[n] && ksk(a.keystore)[n] == old(ksk(a.keystore))[n]
+//@   ensures [C11.ks.monotone] ksMono(a.keystore)
+//@   ensures [C11.ks.inv] ksOK(a.keystore)
+//@   ensures ret1 != nil ==> ret0 == nil
+
+//@ func (*deviceKeystore).getAccountPrivateKey
+//@   for C11
+//@   requires dkOK(a) && unlocked(addr(a.mu))
+//@   modifies ksh(a.keystore), ksk(a.keystore), lockstate(addr(a.mu))
+//@   ensures [C11.account.key] ret1 == nil ==> ret0 != nil && keytype(ret0) == 1 && ksh(a.keystore)["accountSK"] && ksk(a.keystore)["accountSK"] == ret0
+//@   ensures [C11.ks.monotone] ksMono(a.keystore)
+//@   ensures [C11.ks.inv] ksOK(a.keystore) && unlocked(addr(a.mu))
+//@   ensures ret1 != nil ==> ret0 == nil
+//@ func (*deviceKeystore).getAccountProofPrivateKey
+//@   for C11
+//@   requires dkOK(a) && unlocked(addr(a.mu))
+//@   modifies ksh(a.keystore), ksk(a.keystore), lockstate(addr(a.mu))
+//@   ensures [C11.proof.key] ret1 == nil ==> ret0 != nil && keytype(ret0) == 1 && ksh(a.keystore)["accountProofSK"] && ksk(a.keystore)["accountProofSK"] == ret0
+//@   ensures [C11.ks.monotone] ksMono(a.keystore)
+//@   ensures [C11.ks.inv] ksOK(a.keystore) && unlocked(addr(a.mu))
+//@   ensures ret1 != nil ==> ret0 == nil
+//@ func (*deviceKeystore).devicePrivateKey
+//@   for C11
+//@   requires dkOK(a) && unlocked(addr(a.mu))
+//@   modifies ksh(a.keystore), ksk(a.keystore), lockstate(addr(a.mu))
+//@   ensures [C11.device.key] ret1 == nil ==> ret0 != nil && keytype(ret0) == 1 && ksh(a.keystore)["deviceSK"] && ksk(a.keystore)["deviceSK"] == ret0
+//@   ensures [C11.ks.monotone] ksMono(a.keystore)
+//@   ensures [C11.ks.inv] ksOK(a.keystore) && unlocked(addr(a.mu))
+//@   ensures ret1 != nil ==> ret0 == nil
+
+//@ # getOrComputeECDH: the result is the agreement key of (own private key, public key), whether it came from the
+//@ # cache or was just computed, and it is cached under the namespaced name
+//@ func (*deviceKeystore).getOrComputeECDH
+//@   for C11
+//@   safety
+//@   requires dkOK(a) && unlocked(addr(a.mu)) && publicKey != nil && ownPrivateKey != nil
+//@   requires [C11.ecdh.ownkey] (nameSpace == "contactGroupSK" && ksh(a.keystore)["accountSK"] && ownPrivateKey == ksk(a.keystore)["accountSK"])
+//@        || (nameSpace == "memberSK" && ksh(a.keystore)["accountProofSK"] && ownPrivateKey == ksk(a.keystore)["accountProofSK"])
+//@   modifies ksh(a.keystore), ksk(a.keystore), lockstate(addr(a.mu))
+//@   ensures [C11.ecdh.value] ret1 == nil ==> ret0 != nil && keytype(ret0) == 1 && skv(ret0) == cgkey(skv(ownPrivateKey), pkv(publicKey))
+//@   ensures [C11.ecdh.cached] ret1 == nil ==> ksh(a.keystore)[join2(nameSpace, hexs(pkv(publicKey)))] && ksk(a.keystore)[join2(nameSpace, hexs(pkv(publicKey)))] == ret0
+//@   ensures [C11.ks.monotone] ksMono(a.keystore)
+//@   ensures [C11.ks.inv] ksOK(a.keystore) && unlocked(addr(a.mu))
+//@   ensures ret1 != nil ==> ret0 == nil
+
+//@ func (*deviceKeystore).contactGroupPrivateKey
+//@   for C11
+//@   requires dkOK(a) && unlocked(addr(a.mu)) && contactPublicKey != nil
+//@   modifies ksh(a.keystore), ksk(a.keystore), lockstate(addr(a.mu))
+//@   ensures [C11.contact.pairkey] ret1 == nil ==> ret0 != nil && ksh(a.keystore)["accountSK"]
+//@        && skv(ret0) == cgkey(skv(ksk(a.keystore)["accountSK"]), pkv(contactPublicKey))
+//@   ensures [C11.ks.monotone] ksMono(a.keystore)
+//@   ensures [C11.ks.inv] ksOK(a.keystore) && unlocked(addr(a.mu))
+
+//@ func (*deviceKeystore).computeMemberKeyForMultiMemberGroup
+//@   for C11
+//@   requires dkOK(a) && unlocked(addr(a.mu)) && groupPublicKey != nil
+//@   modifies ksh(a.keystore), ksk(a.keystore), lockstate(addr(a.mu))
+//@   ensures [C11.member.key] ret1 == nil ==> ret0 != nil && keytype(ret0) == 1 && ksh(a.keystore)["accountProofSK"]
+//@        && skv(ret0) == cgkey(skv(ksk(a.keystore)["accountProofSK"]), pkv(groupPublicKey))
+//@   ensures [C11.ks.monotone] ksMono(a.keystore)
+//@   ensures [C11.ks.inv] ksOK(a.keystore) && unlocked(addr(a.mu))
+//@   ensures ret1 != nil ==> ret0 == nil
+
+//@ # the device key of a multi-member group is stored under a name that is injective in the group key, and a
+//@ # stored one is returned unchanged (stable per device and group)
+//@ func (*deviceKeystore).getOrGenerateDeviceKeyForMultiMemberGroup
+//@   for C11
+//@   requires dkOK(a) && unlocked(addr(a.mu)) && groupPublicKey != nil
+//@   modifies ksh(a.keystore), ksk(a.keystore), lockstate(addr(a.mu))
+//@   ensures [C11.memberdevice.key] ret1 == nil ==> ret0 != nil && keytype(ret0) == 1
+//@        && ksh(a.keystore)[join2("memberDeviceSK", hexs(pkv(groupPublicKey)))] && ksk(a.keystore)[join2("memberDeviceSK", hexs(pkv(groupPublicKey)))] == ret0
+//@   ensures [C11.memberdevice.stable] old(ksh(a.keystore))[join2("memberDeviceSK", hexs(pkv(groupPublicKey)))] && ret1 == nil
+//@        ==> ret0 == old(ksk(a.keystore))[join2("memberDeviceSK", hexs(pkv(groupPublicKey)))]
+//@   ensures [C11.ks.monotone] ksMono(a.keystore)
+//@   ensures [C11.ks.inv] ksOK(a.keystore) && unlocked(addr(a.mu))
+//@   ensures ret1 != nil ==> ret0 == nil
+
+//@ func (*deviceKeystore).memberDeviceForMultiMemberGroup
+//@   for C11
+//@   requires dkOK(a) && unlocked(addr(a.mu)) && groupPublicKey != nil
+//@   modifies ksh(a.keystore), ksk(a.keystore), lockstate(addr(a.mu))
+//@   ensures [C11.mm.memberdevice] ret1 == nil ==> omdOK(ret0) && fresh(ret0) && ksh(a.keystore)["accountProofSK"]
+//@        && skv(ret0.member) == cgkey(skv(ksk(a.keystore)["accountProofSK"]), pkv(groupPublicKey))
+//@        && ret0.device == ksk(a.keystore)[join2("memberDeviceSK", hexs(pkv(groupPublicKey)))]
+//@   ensures [C11.ks.monotone] ksMono(a.keystore)
+//@   ensures [C11.ks.inv] ksOK(a.keystore) && unlocked(addr(a.mu))
+//@   ensures ret1 != nil ==> ret0 == nil
+
+//@ func (*deviceKeystore).memberDeviceForGroup
+//@   for C11, C01, C05, C09
+//@   requires dkOK(a) && unlocked(addr(a.mu)) && group != nil
+//@   modifies ksh(a.keystore), ksk(a.keystore), lockstate(addr(a.mu))
+//@   ensures [C11.group.memberdevice] ret1 == nil ==> omdOK(ret0) && fresh(ret0)
+//@   ensures [C11.group.account-contact] ret1 == nil && (group.GroupType == 1 || group.GroupType == 2) ==>
+//@        ret0.member == ksk(a.keystore)["accountSK"] && ret0.device == ksk(a.keystore)["deviceSK"] && ksh(a.keystore)["accountSK"] && ksh(a.keystore)["deviceSK"]
+//@   ensures [C11.group.multimember] ret1 == nil && group.GroupType == 3 ==> ksh(a.keystore)["accountProofSK"]
+//@        && skv(ret0.member) == cgkey(skv(ksk(a.keystore)["accountProofSK"]), bytes(group.PublicKey))
+//@        && ret0.device == ksk(a.keystore)[join2("memberDeviceSK", hexs(bytes(group.PublicKey)))]
+//@   ensures [C11.group.unknown-type] group.GroupType != 1 && group.GroupType != 2 && group.GroupType != 3 ==> ret1 != nil
+//@   ensures [C11.ks.monotone] ksMono(a.keystore)
+//@   ensures [C11.ks.inv] ksOK(a.keystore) && unlocked(addr(a.mu))
+//@   ensures ret1 != nil ==> ret0 == nil
+
+//@ func getEd25519PrivateKeyFromLibP2PFormattedBytes
+//@   for C11
+//@   ensures [C11.import.parse] ret1 == nil ==> ret0 != nil && keytype(ret0) == 1 && skm_ok(bytes(rawKeyBytes)) && skm_type(bytes(rawKeyBytes)) == 1 && skv(ret0) == skm_raw(bytes(rawKeyBytes))
+//@   ensures [C11.import.non-ed25519] skm_ok(bytes(rawKeyBytes)) && skm_type(bytes(rawKeyBytes)) != 1 ==> ret1 != nil
+//@   ensures ret1 != nil ==> ret0 == nil
+
+//@ # import: refused (store unchanged) when either account key exists, when a blob is not an Ed25519 key, or when
+//@ # both blobs hold the same key; on success exactly the two account keys are added with the imported values
+//@ func (*deviceKeystore).restoreAccountKeys
+//@   for C11
+//@   requires dkOK(a)
+//@   modifies ksh(a.keystore), ksk(a.keystore)
+//@   ensures [C11.import.refuse.exists] old(ksh(a.keystore))["accountSK"] || old(ksh(a.keystore))["accountProofSK"] ==> ret0 != nil
+//@   ensures [C11.import.refuse.type] (skm_ok(bytes(accountPrivateKeyBytes)) && skm_type(bytes(accountPrivateKeyBytes)) != 1)
+//@        || (skm_ok(bytes(accountProofPrivateKeyBytes)) && skm_type(bytes(accountProofPrivateKeyBytes)) != 1) ==> ret0 != nil
+//@   ensures [C11.import.refuse.equal] skm_raw(bytes(accountPrivateKeyBytes)) == skm_raw(bytes(accountProofPrivateKeyBytes)) ==> ret0 != nil
+//@   ensures [C11.import.refuse.unchanged] old(ksh(a.keystore))["accountSK"] || old(ksh(a.keystore))["accountProofSK"]
+//@        || skm_raw(bytes(accountPrivateKeyBytes)) == skm_raw(bytes(accountProofPrivateKeyBytes))
+//@        ==> ksh(a.keystore) == old(ksh(a.keystore)) && ksk(a.keystore) == old(ksk(a.keystore))
+//@   ensures [C11.import.ok] ret0 == nil ==> ksh(a.keystore)["accountSK"] && ksh(a.keystore)["accountProofSK"]
+//@        && skv(ksk(a.keystore)["accountSK"]) == skm_raw(bytes(accountPrivateKeyBytes)) && skv(ksk(a.keystore)["accountProofSK"]) == skm_raw(bytes(accountProofPrivateKeyBytes))
+//@   ensures [C11.import.frame] forall n Bytes {ksh(a.keystore)[n]} :: n != "accountSK" && n != "accountProofSK" ==> ksh(a.keystore)[n] == old(ksh(a.keystore))[n] && ksk(a.keystore)[n] == old(ksk(a.keystore))[n]
+//@   ensures [C11.ks.monotone] ksMono(a.keystore)
+//@   ensures [C11.ks.inv] ksOK(a.keystore)
+//@   loop 0 invariant forall k Bytes {has(privateKeys, k)} :: has(privateKeys, k) ==> (k == "accountSK" || k == "accountProofSK") && privateKeys[k] != nil && keytype(privateKeys[k]) == 1
+//@   loop 0 invariant has(privateKeys, "accountSK") ==> skv(privateKeys["accountSK"]) == skm_raw(bytes(accountPrivateKeyBytes)) && skm_type(bytes(accountPrivateKeyBytes)) == 1
+//@   loop 0 invariant has(privateKeys, "accountProofSK") ==> skv(privateKeys["accountProofSK"]) == skm_raw(bytes(accountProofPrivateKeyBytes)) && skm_type(bytes(accountProofPrivateKeyBytes)) == 1
+//@   loop 0 invariant forall k Bytes {visited(rangeof(0), k)} :: visited(rangeof(0), k) ==> has(privateKeys, k)
+//@   loop 0 invariant has(rangeof(0), "accountSK") && has(rangeof(0), "accountProofSK") && rangeof(0) != nil
+//@   loop 0 invariant ksh(a.keystore) == old(ksh(a.keystore)) && ksk(a.keystore) == old(ksk(a.keystore)) && privateKeys != nil
+//@   loop 1 invariant ksh(a.keystore) == old(ksh(a.keystore)) && ksk(a.keystore) == old(ksk(a.keystore))
+//@   loop 1 invariant forall k Bytes {visited(privateKeys, k)} :: visited(privateKeys, k) ==> !ksh(a.keystore)[k]
+//@   loop 2 invariant ksOK(a.keystore) && ksMono(a.keystore)
+//@   loop 2 invariant forall p Bytes {hexs(p)} :: !ksh(a.keystore)[join2("contactGroupSK", hexs(p))] && !ksh(a.keystore)[join2("memberSK", hexs(p))]
+//@   loop 2 invariant forall k Bytes {visited(privateKeys, k)} :: visited(privateKeys, k) ==> ksh(a.keystore)[k] && ksk(a.keystore)[k] == privateKeys[k]
+//@   loop 2 invariant forall n Bytes {ksh(a.keystore)[n]} :: !(has(privateKeys, n) && visited(privateKeys, n)) ==> ksh(a.keystore)[n] == old(ksh(a.keystore))[n] && ksk(a.keystore)[n] == old(ksk(a.keystore))[n]
+
+//@ # ----- contact group derived from the pair key -----
+//@ func getKeysForGroupOfContact
+//@   for C11
+//@   safety
+//@   requires contactPairPrivateKey != nil
+//@   ensures [C11.contact.keys] ret2 == nil ==> ret0 != nil && ret1 != nil && keytype(ret0) == 1 && keytype(ret1) == 1
+//@        && skv(ret0) == cg_groupsk(skv(contactPairPrivateKey)) && skv(ret1) == edkey(cg_secret(skv(contactPairPrivateKey)))
+//@ func getGroupForContact
+//@   for C11
+//@   safety
+//@   requires contactPairPrivateKey != nil
+//@   ensures [C11.contact.group] ret1 == nil ==> ret0 != nil && fresh(ret0) && ret0.GroupType == 2 && ret0.SecretSig == nil
+//@        && bytes(ret0.PublicKey) == pubof(cg_groupsk(skv(contactPairPrivateKey))) && bytes(ret0.Secret) == cg_secret(skv(contactPairPrivateKey))
+
+//@ # ----- secretStore API -----
+//@ func (*secretStore).GetGroupForContact
+//@   for C11
+//@   requires s != nil && dkOK(s.deviceKeystore) && unlocked(addr(s.deviceKeystore.mu)) && contactPublicKey != nil
+//@   modifies ksh(s.deviceKeystore.keystore), ksk(s.deviceKeystore.keystore), lockstate(addr(s.deviceKeystore.mu))
+//@   ensures [C11.api.contact.group] ret1 == nil ==> ret0 != nil && ret0.GroupType == 2 && ksh(s.deviceKeystore.keystore)["accountSK"]
+//@        && bytes(ret0.PublicKey) == pubof(cg_groupsk(cgkey(skv(ksk(s.deviceKeystore.keystore)["accountSK"]), pkv(contactPublicKey))))
+//@        && bytes(ret0.Secret) == cg_secret(cgkey(skv(ksk(s.deviceKeystore.keystore)["accountSK"]), pkv(contactPublicKey)))
+//@   ensures [C11.ks.monotone] ksMono(s.deviceKeystore.keystore)
+//@   ensures [C11.ks.inv] ksOK(s.deviceKeystore.keystore)
+//@ func (*secretStore).GetGroupForAccount
+//@   for C11
+//@   requires s != nil && dkOK(s.deviceKeystore) && unlocked(addr(s.deviceKeystore.mu))
+//@   modifies ksh(s.deviceKeystore.keystore), ksk(s.deviceKeystore.keystore), lockstate(addr(s.deviceKeystore.mu))
+//@   ensures [C11.api.account.group] ret2 == nil ==> ret0 != nil && ret0.GroupType == 1 && ret1 != nil
+//@        && ksh(s.deviceKeystore.keystore)["accountSK"] && ksh(s.deviceKeystore.keystore)["accountProofSK"]
+//@        && bytes(ret0.PublicKey) == pubof(skv(ksk(s.deviceKeystore.keystore)["accountSK"]))
+//@        && bytes(ret0.Secret) == bslice(skv(ksk(s.deviceKeystore.keystore)["accountProofSK"]), 0, 32)
+//@   ensures [C11.ks.monotone] ksMono(s.deviceKeystore.keystore)
+//@   ensures [C11.ks.inv] ksOK(s.deviceKeystore.keystore)
+//@ func (*secretStore).ExportAccountKeysForBackup
+//@   for C11
+//@   requires s != nil && dkOK(s.deviceKeystore) && unlocked(addr(s.deviceKeystore.mu))
+//@   modifies ksh(s.deviceKeystore.keystore), ksk(s.deviceKeystore.keystore), lockstate(addr(s.deviceKeystore.mu))
+//@   ensures [C11.api.export] err == nil ==> ksh(s.deviceKeystore.keystore)["accountSK"] && ksh(s.deviceKeystore.keystore)["accountProofSK"]
+//@        && bytes(accountPrivateKeyBytes) == skmarshal(1, skv(ksk(s.deviceKeystore.keystore)["accountSK"]))
+//@        && bytes(accountProofPrivateKeyBytes) == skmarshal(1, skv(ksk(s.deviceKeystore.keystore)["accountProofSK"]))
+//@   ensures [C11.ks.monotone] ksMono(s.deviceKeystore.keystore)
+//@ func (*secretStore).ImportAccountKeys
+//@   for C11
+//@   requires s != nil && dkOK(s.deviceKeystore)
+//@   modifies ksh(s.deviceKeystore.keystore), ksk(s.deviceKeystore.keystore)
+//@   ensures [C11.api.import.ok] ret0 == nil ==> ksh(s.deviceKeystore.keystore)["accountSK"] && ksh(s.deviceKeystore.keystore)["accountProofSK"]
+//@        && skv(ksk(s.deviceKeystore.keystore)["accountSK"]) == skm_raw(bytes(accountPrivateKeyBytes))
+//@        && skv(ksk(s.deviceKeystore.keystore)["accountProofSK"]) == skm_raw(bytes(accountProofPrivateKeyBytes))
+//@   ensures [C11.api.import.refuse] old(ksh(s.deviceKeystore.keystore))["accountSK"] || old(ksh(s.deviceKeystore.keystore))["accountProofSK"] ==> ret0 != nil
+//@        && ksh(s.deviceKeystore.keystore) == old(ksh(s.deviceKeystore.keystore)) && ksk(s.deviceKeystore.keystore) == old(ksk(s.deviceKeystore.keystore))
+//@ func (*secretStore).GetOwnMemberDeviceForGroup
+//@   for C11
+//@   requires s != nil && dkOK(s.deviceKeystore) && unlocked(addr(s.deviceKeystore.mu)) && g != nil
+//@   modifies ksh(s.deviceKeystore.keystore), ksk(s.deviceKeystore.keystore), lockstate(addr(s.deviceKeystore.mu))
+//@   ensures [C11.api.memberdevice] ret1 == nil && g.GroupType == 3 ==> ksh(s.deviceKeystore.keystore)["accountProofSK"]
+//@        && skv(as(ret0, "*ownMemberDevice").member) == cgkey(skv(ksk(s.deviceKeystore.keystore)["accountProofSK"]), bytes(g.PublicKey))
